@@ -40,6 +40,7 @@ LAZY = {'forbidden-exec', 'candidate-started-early'}
 LEFT = {'leftover-tasks', 'late-activity', 'unbounded-drain', 'cancel-hang', 'cancel-wrong-exception'}
 
 GEN = ['plain', 'switch', 'oneof', 'rec', 'mix']
+NEED_KIND = {'C09': 'switch', 'C10': 'oneof', 'C11': 'rec'}
 
 
 def suites(prop: str, tier: str) -> t.List[Suite]:
@@ -79,7 +80,7 @@ def suites(prop: str, tier: str) -> t.List[Suite]:
             Suite('yield-d1', ['corpus', 'switch', 'oneof'] + ([] if q else ['plain', 'rec', 'mix']), ['counts', 'kwargs'], 1, ['thread'],
                   collab={'mode': 'yield'}, symptoms=sym, max_nodes=5 if q else 6, plans='ok'),
             Suite('gated', ['corpus'] + ([] if q else ['switch', 'oneof', 'plain']), ['counts', 'kwargs'], 0 if q else 1, ['async'],
-                  collab={'mode': 'gated'}, symptoms=sym, plans='ok', max_nodes=8 if q else 5, limit=20000),
+                  collab={'mode': 'gated'}, symptoms=sym, plans='ok', max_nodes=6 if q else 5, limit=20000),
         ]
     if prop == 'C05':
         sym = ERR | VERDICT
@@ -118,9 +119,9 @@ def suites(prop: str, tier: str) -> t.List[Suite]:
             Suite('early-failure', GEN + ['corpus'], ['left'], 0, ['async'], symptoms=LEFT),
             Suite('early-failure-thread', GEN + ['corpus'], ['left'], 0, ['thread'], symptoms=LEFT),
             Suite('cancel-every-step', ['corpus', 'plain'] + ([] if q else ['oneof', 'switch', 'rec']), ['left', 'cancel'], 0, ['async', 'thread'],
-                  symptoms=LEFT, plans='cancel', max_nodes=4 if q else 5),
-            Suite('cancel-gated-collab', ['corpus'], ['left', 'cancel'], 0, ['async'], collab={'mode': 'gated', 'store': 'rec'},
-                  symptoms=LEFT, plans='cancel', max_nodes=5 if q else 8),
+                  symptoms=LEFT, plans='cancel', max_nodes=8 if q else 8),
+            Suite('cancel-gated-collab', ['corpus', 'plain'], ['left', 'cancel'], 0, ['async'], collab={'mode': 'gated', 'store': 'rec'},
+                  symptoms=LEFT, plans='cancel1', max_nodes=4 if q else 5, limit=4000),
             Suite('d1', ['corpus'] + ([] if q else ['oneof', 'rec']), ['left'], 1, ['thread'], symptoms=LEFT, max_nodes=5),
         ]
     if prop == 'C14':
@@ -156,6 +157,8 @@ def case_plans(spec: dict, suite: Suite, fam: str) -> t.List[dict]:
         pl = EN.base_plans(spec)
     elif suite.plans == 'cancel':
         pl = EN.base_plans(spec)[:2]
+    elif suite.plans == 'cancel1':
+        return EN.base_plans(spec)[:1]
     elif suite.plans == 'ok+fail':
         pl = EN.base_plans(spec)[:1]
         names = list(spec['nodes'])
@@ -173,13 +176,15 @@ def case_plans(spec: dict, suite: Suite, fam: str) -> t.List[dict]:
 def work(arg: tuple) -> dict:
     prop, tier, si, fam, spec = arg
     suite = suites(prop, tier)[si]
-    out = dict(cases=0, executions=0, transitions=0, states=0, capped=0, viol=[], internal=[], outcomes=0, sample=None)
+    import time as _t
+    _t0 = _t.time()
+    out = dict(cases=0, executions=0, transitions=0, states=0, capped=0, viol=[], internal=[], outcomes=0, sample=None, cpu=0.0)
     for mode in suite.modes:
         sp = EN.with_mode(spec, mode) if mode != 'async' else spec
         for plan in case_plans(sp, suite, fam):
             base = X.Case(sp, [plan], collab=dict(suite.collab), fam=fam)
             cases = [base]
-            if suite.plans == 'cancel':
+            if suite.plans in ('cancel', 'cancel1'):
                 x0 = X.execute(base)
                 cases = [X.Case(sp, [plan], collab=dict(suite.collab), fam=fam, cancel=(0, k)) for k in range(x0.steps + 1)]
             for case in cases:
@@ -202,6 +207,7 @@ def work(arg: tuple) -> dict:
                                             tags=r.tags, suite=suite.name, bound=suite.bound, executions_violating=cnt,
                                             source=codegen.render(sp), reference=r.ref_outcome))
     codegen.unload(spec)
+    out['cpu'] = _t.time() - _t0
     return out
 
 
@@ -209,15 +215,20 @@ def run(prop: str, tier: str, seed: int) -> dict:
     sl = suites(prop, tier)
     items = []
     progs: t.Set[str] = set()
+    only = os.environ.get('VERIF_SUITE')
     for si, su in enumerate(sl):
+        if only and su.name != only:
+            continue
         for fam in su.fams:
             for spec in fam_specs(fam, tier):
                 if len(spec['nodes']) > su.max_nodes:
                     continue
+                if NEED_KIND.get(prop) and NEED_KIND[prop] not in S.kinds_used(spec):
+                    continue
                 items.append((prop, tier, si, fam, spec))
                 progs.add(S.spec_hash(spec))
     items = RU.shuffled(items, seed)
-    tot = dict(cases=0, executions=0, transitions=0, states=0, capped=0, outcomes=0)
+    tot = dict(cases=0, executions=0, transitions=0, states=0, capped=0, outcomes=0, cpu=0.0)
     per_suite: t.Dict[str, dict] = {}
     viol: t.List[dict] = []
     internal: t.List[str] = []
@@ -228,7 +239,8 @@ def run(prop: str, tier: str, seed: int) -> dict:
             continue
         for k in tot:
             tot[k] += res[k]
-        ps = per_suite.setdefault(sl[si].name, dict(cases=0, executions=0, bound=sl[si].bound, capped=0))
+        ps = per_suite.setdefault(sl[si].name, dict(cases=0, executions=0, bound=sl[si].bound, capped=0, cpu_s=0.0))
+        ps['cpu_s'] = round(ps['cpu_s'] + res['cpu'], 1)
         ps['cases'] += res['cases']
         ps['executions'] += res['executions']
         ps['capped'] += res['capped']
